@@ -73,9 +73,16 @@ def run(ctx):
     ctx.check(not probs and dom_ok, "R09-n", add.key, add, "n += 1 exactly once per add, before the window arithmetic (%d paths)" % len(paths),
               "; ".join(sorted(set(probs))) or "the increment of n does not dominate the computation of the bucket id (n would be the old stream length)")
 
+    # ---- the entry update in combinator form: known.entry(t).and_modify(|v| ..).or_insert_with(|| ..) -----------------------
+    comb = entry_combinators(ctx, add, tb, paths)
+
     # ---- b_current -------------------------------------------------------------------------------
     # take it from the Vacant insert's delta (= b_current - 1) and from the prune closure's upvar
     bcur = None
+    if comb is not None and comb.get("vacant") is not None and comb["vacant"][0] == "adt":
+        dl = dict(comb["vacant"][3]).get("delta")
+        if dl is not None and dl[0] == "op" and dl[1] == "Sub" and dl[2][1] == const(1):
+            bcur = dl[2][0]
     for p in paths:
         for e in p.events:
             if e["kind"] == "write" and e.get("name") == "insert" and self_field(e) == "known" and e["args"] and e["args"][-1][0] == "adt":
@@ -94,7 +101,17 @@ def run(ctx):
     # ---- new entry / known entry ---------------------------------------------------------------------
     probs = []
     seen = {"vac": 0, "occ": 0}
-    for p in paths:
+    if comb is not None:
+        v = comb.get("vacant")
+        d = dict(v[3]) if v is not None and v[0] == "adt" else {}
+        if d.get("f") != const(1) or bcur is None or d.get("delta") != mk("Sub", bcur, const(1)):
+            probs.append("new entry is %s, expected {f: 1, delta: b_current - 1}" % (fmt(v) if v else "?"))
+        if comb.get("occupied") != "f+1":
+            probs.append("known entry updated with %s, expected f + 1" % comb.get("occupied"))
+        probs += comb["problems"]
+        ctx.check(not probs, "R09-new-entry", add.key, add, "entry(t).and_modify(f += 1).or_insert_with({f:1, delta:b-1}) on every path; add returns the flag set only by the inserting closure",
+                  "; ".join(sorted(set(probs))[:3]))
+    for p in (paths if comb is None else []):
         ins = [e for e in p.events if e["kind"] == "write" and e.get("name") == "insert" and self_field(e) == "known"]
         upd = [e for e in p.events if e["kind"] == "write" and e["how"] == "store" and e["root"] == SELF and e["path"][:1] == ("known",) and e["path"][-1:] == ("f",)]
         if ins:
@@ -114,7 +131,8 @@ def run(ctx):
                 probs.append("updating path returns %s / %d updates" % (p.ret, len(upd)))
         else:
             probs.append("a path neither inserts nor updates the entry")
-    ctx.check(not probs and seen["vac"] and seen["occ"], "R09-new-entry", add.key, add, "Vacant: insert {f:1, delta:b-1} -> true (%d paths); Occupied: f += 1 -> false (%d paths)" % (seen["vac"], seen["occ"]),
+    if comb is None:
+      ctx.check(not probs and seen["vac"] and seen["occ"], "R09-new-entry", add.key, add, "Vacant: insert {f:1, delta:b-1} -> true (%d paths); Occupied: f += 1 -> false (%d paths)" % (seen["vac"], seen["occ"]),
               "; ".join(sorted(set(probs))[:3]))
 
     # ---- prune -------------------------------------------------------------------------------------------
@@ -159,6 +177,28 @@ def run(ctx):
         item = elem_of(("map", ("dummy",), r[2]))
         okq = pred == mk("Le", bound, ("field", ("tfield", x, 1), "f")) and item == ("tfield", x, 0)
         desc = "filter %s map %s" % (fmt(pred), fmt(item))
+    if not okq and r[0] == "call" and r[1].endswith("Iterator::filter_map") and len(r[2]) == 2 and r[2][0] == ("field", selfp, "known") and r[2][1][0] == "closure":
+        # known.iter().filter_map(|(k, v)| if pred { Some(k) } else { None })
+        cf = prog.fn(r[2][1][1])
+        x = ("elem", ("dummy",))
+        if cf is not None:
+            ctx.analysed_fns.add(cf.key)
+            pq = PathEnumerator(cf, prog, ctx.summ, subst={1: ("closure_env", r[2][1][2]), 2: x})
+            want = mk("Le", bound, ("field", ("tfield", x, 1), "f"))
+            good = []
+            for p in pq.paths():
+                if p.exit_kind != "return":
+                    continue
+                fd = {repr(c): tr for c, tr in pq.path_facts(p)}
+                g = fv(fd, want)
+                if p.ret == "Some":
+                    good.append(g is True and p.ret_payload == ("term", ("tfield", x, 0)))
+                elif p.ret == "None":
+                    good.append(g is False)
+                else:
+                    good.append(False)
+            okq = len(good) >= 2 and all(good)
+            desc = "filter_map with %d closure paths" % len(good)
     ctx.check(okq, "R09-query", qry.key, qry, "query keeps keys of `known` with f >= max(ceil((threshold - epsilon) * n), 0)", "query is %s" % desc[:300])
 
     # ---- constructors ---------------------------------------------------------------------------------------------
@@ -185,6 +225,82 @@ def run(ctx):
     if nf is not None:
         r = TermBuilder(nf, prog).return_term()
         ctx.check(r == n_f, "R09-n", nf.key, nf, "n() returns the field", "n() is %s" % fmt(r))
+
+
+def entry_combinators(ctx, add, tb, paths):
+    """`self.known.entry(t).and_modify(C0).or_insert_with(C1)` (or `.or_insert(v)`): returns
+         {"vacant": term inserted for a new key, "occupied": "f+1" | description, "problems": [...]}
+    or None when add does not use this form. Semantics assumed (std): and_modify runs C0 on the value of an occupied entry only,
+    or_insert_with runs C1 and inserts its result for a vacant entry only."""
+    from ..terms import apply_closure
+    from .common import all_writes
+    prog = ctx.prog
+    selfp = ("param", 1, "self")
+    chain = [(bi, t) for bi, t in add.calls() if t.callee_name() in ("or_insert_with", "or_insert") and not t.callee_is_local()]
+    if len(chain) != 1:
+        return None
+    bi, t = chain[0]
+    a = [tb.operand(x, bi, len(add.blocks[bi].stmts)) for x in t.args]
+    am = a[0]
+    if not (am[0] == "call" and am[1].endswith("::and_modify") and len(am[2]) == 2 and am[2][1][0] == "closure"):
+        return None
+    ent = am[2][0]
+    probs = []
+    if ent != ("call", "std::collections::HashMap::entry", (("field", selfp, "known"), ("param", 2, add.local_name(2)))):
+        probs.append("the entry looked up is %s, expected known.entry(t)" % fmt(ent))
+    # occupied: C0 stores f + 1 into the value it is given, nothing else
+    c0 = prog.fn(am[2][1][1])
+    occ = "?"
+    if c0 is not None:
+        ctx.analysed_fns.add(c0.key)
+        ws = [w for w in all_writes(ctx, c0) if w["how"] != "borrow"]
+        if len(ws) == 1 and ws[0]["root"] == ("param", 2) and ws[0]["path"] == ("f",) and ws[0]["how"] == "store" \
+                and ws[0]["value"] == mk("Add", const(1), ("field", ("param", 2, c0.local_name(2)), "f")):
+            occ = "f+1"
+        else:
+            occ = "; ".join("%s <- %s" % (".".join(w["path"]), fmt(w["value"]) if w.get("value") else w["how"]) for w in ws) or "nothing"
+    # vacant: value of C1 / the or_insert operand
+    vac = None
+    flag_local = None
+    if t.callee_name() == "or_insert":
+        vac = a[1]
+    elif a[1][0] == "closure":
+        vac = apply_closure(a[1], ())
+        c1 = prog.fn(a[1][1])
+        if c1 is not None:
+            ctx.analysed_fns.add(c1.key)
+            ws = [w for w in all_writes(ctx, c1) if w["how"] != "borrow"]
+            # the only side effect allowed: setting a captured flag to true
+            flags = [w for w in ws if w["root"] == ("param", 1) and len(w["path"]) == 1 and w["how"] == "store" and w["value"] == const(True)]
+            if len(flags) != len(ws):
+                probs.append("the inserting closure has other side effects")
+            if len(flags) == 1:
+                # which local of add is captured in that slot?
+                slot = int(flags[0]["path"][0])
+                for blk in add.blocks:
+                    for st in blk.stmts:
+                        if st.k == "assign" and st.rv.k == "aggregate" and st.rv.j.get("ak") == "closure" and st.rv.j.get("def", st.rv.j.get("closure", "")) in (a[1][1], "") and len(st.rv.ops) > slot:
+                            o = st.rv.ops[slot]
+                            if o.place is not None and o.place.is_local():
+                                for (b2, i2, kind, obj) in add.defs().get(o.place.local, []):
+                                    if kind == "stmt" and obj.rv.k == "ref" and obj.rv.place.is_local():
+                                        flag_local = obj.rv.place.local
+    # every returning path runs the chain
+    for p in paths:
+        if not any(e["kind"] == "call" and e["name"] == t.callee_name() for e in p.events):
+            probs.append("a path returns without touching the entry")
+    # the result: `true` exactly for a new key
+    r = tb.return_term()
+    if flag_local is not None:
+        inits = [obj for (b2, i2, kind, obj) in add.defs().get(flag_local, []) if kind == "stmt"]
+        init_false = len(inits) == 1 and inits[0].rv.k == "use" and inits[0].rv.ops[0].k == "const" and inits[0].rv.ops[0].value() is False
+        alts = r[1] if r[0] == "phi" else (r,)
+        if not (init_false and all(x == ("clobber", flag_local) for x in alts)):
+            probs.append("add returns %s, expected the flag that only the inserting closure sets" % fmt(r)[:100])
+    else:
+        # without a flag the result must come from the map itself — not recognised
+        probs.append("add returns %s: cannot relate it to `the key was new`" % fmt(r)[:100])
+    return {"vacant": vac, "occupied": occ, "problems": probs}
 
 
 def phi_guarded(ctx, add, tb, at_end):
